@@ -562,7 +562,7 @@ def nextSt (s : St) (q : Req) (e : Env) (b : BoardSt) : St :=
   let boards1 := updBoard boards0 q.board BoardSt.setTotal
   let boards2 := if q.isOpen then updBoard boards1 ALLPOST fun x => x.crossPublish e.name (pContent q e) (pCross q e) else boards1
   { boards := boards2,
-    users := if useAnony q.anon then s.users else bumpUser s.users q.userID,
+    users := if useAnony q.anon then s.users else bumpUser s.users q.userID q.callerNp,
     postLog := (C05.appendRecord s.postLog logSz (pLog q e)).1 }
 
 def nextPosted (q : Req) (e : Env) (b : BoardSt) : Posted :=
@@ -620,19 +620,17 @@ theorem nextSt_board (s : St) (q : Req) (e : Env) (b : BoardSt) (h : findBoard s
     · have hx' : ¬ ALLPOST = q.board := fun e => hx e.symm
       by_cases ha : m = ALLPOST <;> simp [hm, ha, hx']
 
-def numPostsOf (us : List (Bytes × Nat)) (u : Bytes) : Option Nat := (us.find? (·.1 == u)).map (·.2)
-
 theorem numPostsOf_cons (x : Bytes × Nat) (rest : List (Bytes × Nat)) (u : Bytes) :
     numPostsOf (x :: rest) u = if x.1 == u then some x.2 else numPostsOf rest u := by
   unfold numPostsOf
   rw [List.find?_cons]
   cases (x.1 == u) <;> rfl
 
-theorem bumpUser_cons (x : Bytes × Nat) (rest : List (Bytes × Nat)) (id : Bytes) :
-    bumpUser (x :: rest) id = (if x.1 == id then (x.1, x.2 + 1) else x) :: bumpUser rest id := rfl
+theorem bumpUser_cons (x : Bytes × Nat) (rest : List (Bytes × Nat)) (id : Bytes) (c : Nat) :
+    bumpUser (x :: rest) id c = (if x.1 == id then (x.1, x.2 + 1) else x) :: bumpUser rest id c := rfl
 
-theorem bumpUser_lookup (us : List (Bytes × Nat)) (id u : Bytes) :
-    numPostsOf (bumpUser us id) u = (numPostsOf us u).map fun n => if u = id then n + 1 else n := by
+theorem bumpUser_lookup (us : List (Bytes × Nat)) (id u : Bytes) (c : Nat) :
+    numPostsOf (bumpUser us id c) u = (numPostsOf us u).map fun n => if u = id then n + 1 else n := by
   induction us with
   | nil => simp [bumpUser, numPostsOf]
   | cons x rest ih =>
